@@ -714,9 +714,20 @@ def verify_unit(unit_file, workdir, want_canary=True):
         open(cpath, "w").write(casm.text())
         cres = run_verus(cpath)
         cfailed, cinfra = classify(casm, cres)
+        # a canary copy on which Z3 runs out of resources was NOT proved false: that is as good as a failed canary
+        # (no vacuity shown); only a copy that VERIFIES `ensures false` is a vacuity alarm
+        rl = [x for x in cinfra if "rlimit" in x or "Resource limit" in x]
+        cinfra = [x for x in cinfra if x not in rl]
+        rl_fns = set()
+        for d in cres["diags"]:
+            if d.get("level") == "error" and ("rlimit" in d.get("message", "") or "Resource limit" in d.get("message", "")):
+                for sp in d.get("spans", []):
+                    reg = casm.region_at(sp["byte_start"])
+                    if reg and reg.get("fn"):
+                        rl_fns.add(reg["fn"]["key"])
         fns_with_body = [f["key"] for f in casm.functions if f["kind"] == "fn" and ("@" not in f["key"] or f.get("inherent"))]
         hit = set(e["fn"] for e in cfailed if e.get("canary"))
-        missing = [f for f in fns_with_body if f not in hit]
+        missing = [f for f in fns_with_body if f not in hit and f not in rl_fns and not (rl and not rl_fns)]
         out["canary"] = {"exempt_trait_impl_methods": [f["key"] for f in casm.functions if f["kind"] == "fn" and "@" in f["key"] and not f.get("inherent")], "functions": len(fns_with_body), "failed_as_expected": len(hit), "missing": missing, "infra": cinfra, "wall_s": cres["wall_s"]}
         if missing:
             out["infra"].append("canary `ensures false` verified for %s: precondition vacuous or function diverges" % missing)
